@@ -18,7 +18,8 @@ import time
 from harness import lang_env as E
 from harness import lang_gen as G
 
-GEN = ['lang_tables']
+GEN = ['lang_tables', 'lang_schemas']
+LEAN_MODULES = ['Mistral.Props.C14', 'Mistral.Props.C14Schema']
 MANIFEST = {
     'technique': 'Lean 4 theorems over a model of the workbook text cutter, spec-dict normalisation and the graph '
                  'checks of workflow validation; differential check of that model against the real functions; '
@@ -776,6 +777,8 @@ def kind_of_dict(d):
 @infra_guard
 def correspond(ctx):
     st = env()
+    from harness import schema_stream as S
+    S.install(st)              # records every (spec class, data) the real parsers / services validate
     rng = ctx.rng
     limit = LIMIT_Q
     t_start = time.time()
@@ -806,7 +809,11 @@ def correspond(ctx):
         ctx.count('lang', 'origin:corner')
     run_targeted(ctx, st, limit)
     # ---- 2b. scaling probes ("never hangs", decided on CPU-time growth, not on a wall-clock limit)
-    run_probes(ctx, st)
+    S.pause()                  # the probes measure CPU time of the unmodified validation
+    try:
+        run_probes(ctx, st)
+    finally:
+        S.resume()
     # ---- 3. generated valid definitions in all syntactic forms
     n_gen = ctx.n(120, 1500)
     gen_pool = []
@@ -862,6 +869,8 @@ def correspond(ctx):
     # ---- 6. model correspondence
     from harness import lang_model as M
     M.correspond_model(ctx, st, pool)
+    # ---- 6b. schema level: Lean interpreter over the generated schemas vs the real validate_schema
+    S.run(ctx, st)
     # ---- 7. /validate controllers
     api_validate(ctx, st, pool, rng, limit)
     # margin of the watchdog: slowest call that did finish, as a fraction of its time limit
@@ -1090,6 +1099,11 @@ def search(ctx):
     M.search_model(ctx, st)
     if ctx.violations:
         return
+    from harness import schema_stream as S
+    S.install(st)
+    S.search(ctx, st)
+    if ctx.violations:
+        return
     old = ctx.tier
     ctx.tier = 'thorough'
     try:
@@ -1126,6 +1140,9 @@ def replay(ctx, rep):
     elif r.get('kind') == 'probe':
         run_probes(ctx, st, only=r['family'])
         print('replay: scaling probe %s' % ctx.cov.get('scaling_probes'))
+    elif r.get('kind') in ('schema', 'schema-ctor'):
+        from harness import schema_stream as S
+        S.replay(ctx, st, r)
     else:
         from harness import lang_model as M
         M.replay_model(ctx, st, r)
